@@ -238,6 +238,10 @@ func UpdatePathAttrs(logger *slog.Logger, global *oc.Global, info *PeerInfo, ori
 	}
 	path := original.Clone(original.IsWithdraw)
 
+	// RFC4456: a route is reflected when it is sent to a client, or when a
+	// client's route is sent to a non-client iBGP peer.
+	reflecting := info.PeerType == oc.PEER_TYPE_INTERNAL && (info.RouteReflectorClient || path.GetSource().RouteReflectorClient)
+
 	for _, a := range path.GetPathAttrs() {
 		if _, y := bgp.PathAttrFlags[a.GetType()]; !y {
 			if a.GetFlags()&bgp.BGP_ATTR_FLAG_TRANSITIVE == 0 {
@@ -246,8 +250,8 @@ func UpdatePathAttrs(logger *slog.Logger, global *oc.Global, info *PeerInfo, ori
 		} else {
 			switch a.GetType() {
 			case bgp.BGP_ATTR_TYPE_CLUSTER_LIST, bgp.BGP_ATTR_TYPE_ORIGINATOR_ID:
-				if info.PeerType != oc.PEER_TYPE_INTERNAL || !info.RouteReflectorClient {
-					// send these attributes to only rr clients
+				if !reflecting {
+					// send these attributes only with reflected routes
 					path.delPathAttr(a.GetType())
 				}
 			}
@@ -306,7 +310,7 @@ func UpdatePathAttrs(logger *slog.Logger, global *oc.Global, info *PeerInfo, ori
 		// RFC4456: BGP Route Reflection
 		// 8. Avoiding Routing Information Loops
 		src := path.GetSource()
-		if info.RouteReflectorClient {
+		if reflecting {
 			// This attribute will carry the BGP Identifier of the originator of the route in the local AS.
 			// A BGP speaker SHOULD NOT create an ORIGINATOR_ID attribute if one already exists.
 			//
@@ -316,7 +320,7 @@ func UpdatePathAttrs(logger *slog.Logger, global *oc.Global, info *PeerInfo, ori
 			// advertiser, and the Next-hop attribute shall be set of the local
 			// address for that session.
 			var attr *bgp.PathAttributeOriginatorId
-			if path.GetFamily() == bgp.RF_RTC_UC {
+			if path.GetFamily() == bgp.RF_RTC_UC && info.RouteReflectorClient {
 				path.SetNexthop(localAddress)
 				if path.IsLocal() {
 					attr, _ = bgp.NewPathAttributeOriginatorId(global.Config.RouterId)
@@ -338,6 +342,10 @@ func UpdatePathAttrs(logger *slog.Logger, global *oc.Global, info *PeerInfo, ori
 			// If the CLUSTER_LIST is empty, it MUST create a new one.
 			// TODO: needs to validated earlier.
 			clusterID := info.RouteReflectorClusterID
+			if !info.RouteReflectorClient {
+				// a client's route towards a non-client: the cluster of the client
+				clusterID = src.RouteReflectorClusterID
+			}
 			var pa *bgp.PathAttributeClusterList
 			if p := path.getPathAttr(bgp.BGP_ATTR_TYPE_CLUSTER_LIST); p == nil {
 				pa, _ = bgp.NewPathAttributeClusterList([]netip.Addr{clusterID})
